@@ -6,7 +6,7 @@
 From Coq Require Import List Arith Bool String.
 Import ListNotations.
 Require Import Verif.Model.C18_Types Verif.Gen.C18_LockTraces Verif.Model.C18 Verif.Model.C18_Sync
-  Verif.Model.C18_Check Verif.Proofs.C18_Task Verif.Proofs.C18_Sync.
+  Verif.Model.C18_Check Verif.Proofs.C18_Task Verif.Proofs.C18_Sync Verif.Proofs.C18_Check.
 
 (* ---- finite obligations on the regenerated tables ---- *)
 
@@ -34,6 +34,11 @@ Print Assumptions once_guard_shape.
 Theorem iterate_shape : iterate_ok gen_iterate_stmts gen_buildfunction_calls = true.
 Proof. exact (eq_refl true). Qed.
 Print Assumptions iterate_shape.
+
+(* go/ir/task.go is, statement for statement, the text the task-graph model below transcribes *)
+Theorem task_shape : task_source_ok gen_task_source = true.
+Proof. exact (eq_refl true). Qed.
+Print Assumptions task_shape.
 
 (* ---- task graph: every label sequence = every interleaving of any number of builders and waiters ---- *)
 
@@ -81,6 +86,13 @@ Theorem shared_enqueued_once :
   forall tr s, run init tr = Some s -> NoDup (map fst (fns s)).
 Proof. exact built_once_any. Qed.
 Print Assumptions shared_enqueued_once.
+
+(* the executable property predicate evaluated on recorded logs is consistent with the theorems: a log that
+   is a run of the model has no violation *)
+Theorem valid_log_no_violation :
+  forall tr s, run init tr = Some s -> trace_violations tr = [].
+Proof. exact valid_log_no_violation_any. Qed.
+Print Assumptions valid_log_no_violation.
 
 (* ---- once-guard: however many Build calls interleave, the body runs at most once, and a call that
         has returned sees the body completed exactly once ---- *)
